@@ -20,6 +20,7 @@ import tempfile
 import time
 import uuid
 import xmlrpc.client
+import zlib
 from types import SimpleNamespace as NS
 
 REAL_PERF = time.perf_counter
@@ -80,6 +81,44 @@ time.time = _wall
 def activate(world):
     global ACTIVE
     ACTIVE = world
+
+
+# ---------------------------------------------------------------------------------------------
+# iteration order of sets of status objects
+# ---------------------------------------------------------------------------------------------
+# ProcessStatus / ApplicationStatus inherit object.__hash__ (the memory address): the iteration order of
+# lost_processes, failed_processes and of the job sets of the RunningFailureHandler would change from one
+# restored snapshot to the next.  The harness owns it: the hash is the rank of the name (ascending, or
+# descending when the scenario says set_order='rev'), equality stays identity.
+_SET_ORDER = {'rev': False, 'names': {}}
+
+
+def _rank_hash(name):
+    rank = _SET_ORDER['names'].get(name)
+    if rank is None:
+        rank = 32 + zlib.crc32(name.encode()) % 32      # names created at run time (numprocs changes)
+    return (63 - rank) if _SET_ORDER['rev'] else rank
+
+
+def _install_set_order():
+    from supvisors.process import ProcessStatus
+    from supvisors.application import ApplicationStatus
+    ProcessStatus.__hash__ = lambda self: _rank_hash(self.namespec)
+    ApplicationStatus.__hash__ = lambda self: _rank_hash(self.application_name)
+
+
+def _set_order(scenario):
+    names = set()
+    for g in scenario['groups']:
+        for gname, procs in g.items():
+            names.add(gname)
+            for pname in (procs if not isinstance(procs, dict) else procs.keys()):
+                names.add(f'{gname}:{pname}' if isinstance(pname, str) else str(pname))
+    _SET_ORDER['rev'] = scenario.get('set_order') == 'rev'
+    _SET_ORDER['names'] = {name: k for k, name in enumerate(sorted(names))}
+
+
+_install_set_order()
 
 
 # ---------------------------------------------------------------------------------------------
@@ -629,7 +668,7 @@ PROC_ACTIONS = {
 
 
 def make_scenario(n, config=None, rules=None, groups=None, node_of=None, nicks=None, core=None,
-                  config_of=None, publisher=False):
+                  config_of=None, publisher=False, set_order=None):
     """Normalise a scenario description (plain JSON-able dict)."""
     if groups is None:
         groups = {}
@@ -640,7 +679,8 @@ def make_scenario(n, config=None, rules=None, groups=None, node_of=None, nicks=N
     return {'n': n, 'config': cfg, 'rules': rules, 'groups': [g for g in groups],
             'node_of': list(node_of) if node_of else list(range(n)),
             'nicks': list(nicks) if nicks else [None] * n, 'core': list(core or []),
-            'config_of': {int(k): v for k, v in (config_of or {}).items()}, 'publisher': publisher}
+            'config_of': {int(k): v for k, v in (config_of or {}).items()}, 'publisher': publisher,
+            'set_order': set_order}
 
 
 class World:
@@ -649,6 +689,7 @@ class World:
         self.n = n = sc['n']
         self.clock_t = T0
         activate(self)
+        _set_order(sc)
         if sc.get('rules'):
             self.rules_key, self.rules_file = rules_path(sc['rules'])
         else:
@@ -1035,6 +1076,8 @@ def snapshot(world):
 
 
 def restore(blob):
+    # NOTE: sets of status objects are rebuilt with the order of the world built last in this process
+    # (one configuration at a time per process)
     w = pickle.loads(blob)
     activate(w)
     return w
